@@ -67,6 +67,7 @@ def execute(sc, ctx):
 
     def on_state(L, prev, G, last_float, info):
         state["swaps"] = L + 1
+        state["final"] = G
         made, gone = rewsim.created_edges(prev, G)
         for e in made:
             d = G.edges[e]
@@ -92,7 +93,9 @@ def execute(sc, ctx):
     if sc.get("pairings_removed"):
         ctx.probe("target_with_removed_pairings")
     ctx.probe("created_edges_checked", state["created"])
-    ctx.result(state["swaps"], state["created"])
+    fin = state.get("final")
+    ctx.result(state["swaps"], state["created"],
+               sorted(tuple(sorted((u, v))) for u, v in fin.edges()) if fin is not None else None)
 
 
 def make_target(G, topos, mode, strength):
